@@ -10,7 +10,7 @@ import tempfile
 
 VERIF = os.path.dirname(os.path.dirname(os.path.abspath(__file__)))
 CHECK_FOR = {"F1": ["C03"], "F2": ["C03"], "F3": ["C09", "C03"], "F5": ["C01"], "F6": ["C08"], "F7a": ["C13"], "F7b": ["C13"],
-             "F8": ["C14"], "F9": ["C17"], "F13": ["C13"], "F14": ["C13"], "F16": ["C02", "C14"]}
+             "F8": ["C14"], "F9": ["C17"], "F13": ["C13"], "F14": ["C13"], "F16": ["C02", "C14"], "F17": ["C03"]}
 
 
 def sh(cmd, cwd=None, env=None):
